@@ -42,12 +42,13 @@ CLAIMED = {
              ref='DESIGN.md section 4 C16'),
  'C17': dict(text='threshold_proportional with all entries and p symbolic (ties, zeros and the .5 rounding boundary are solver cases; argsort modelled as an arbitrary sorted permutation): kept count = min(round-half-away(p x possible), present), strongest kept, diagonal cleared, symmetry, copy semantics; threshold_absolute, binarize, normalize, invert (twice), weight_conversion and teachers_round against their definitions on fully symbolic 3x3 matrices.',
              ref='DESIGN.md section 4 C17'),
+ 'C19': dict(text='nbs_bct (unpaired test) on enumerated integer-valued subject stacks (4 nodes: groups 2+3 and 3+3 with a zero-variance edge; 5 nodes: two components of different sizes), with the threshold a symbolic real in [0,8] (z3 decides every interval between the statistics), tail in both/left/right, k in 1..2 and each subject relabelling a symbolic choice from a seeded list: marked connections = supra-threshold connections of the oracle t statistic, one label 1..m per component, one p-value per component, null value = largest component under the relabelling drawn, p = fraction of null values >= component size, error only when nothing exceeds the threshold. Data and relabellings are enumerated (sqrt of data), so this is the weakest claim of the set; paired=True is not encoded.',
+             ref='DESIGN.md section 4 C19'),
  'C20': dict(text='Generators run with every RandomState draw symbolic and K symbolic over its feasible range: shape, 0/1 values, empty diagonal, exact connection count, symmetry, band structure of the ring lattice, reported count of the fractal generator, and in/out degree sequences of makerandCIJdegreesfixed, proved on every explored path.',
              ref='DESIGN.md section 4 C20'),
 }
 NA = {
  'C18': 'solver-based checking does not apply: mean_first_passage_time, subgraph_centrality and eigenvector_centrality_und are LAPACK eigen-decompositions / inverses in floating point; no contract stub for eig/inv is expressible in the SMT theories available, and the degenerate-eigenspace concern has no counterpart in an exact-real model; findwalks/pagerank alone are a fragment (DESIGN.md section 8)',
- 'C19': 'solver-based checking does not apply usefully: nbs_bct takes square roots of data and re-draws whole subject relabellings, so data and relabellings must be enumerated and only a threshold stays symbolic (the guidance calls this a weak target); not built (DESIGN.md section 8)',
 }
 def repo_hook_commits():
     try:
